@@ -10,7 +10,8 @@
  *   I <TypeName> | <field>:<attribute flags> ...              the fields of a reflection type with their FieldAttribute bits (FAState = 4)
  *   S <hex JSON spec> | <known,names|-> <hex state before> <hex state after> <hex cfg before> <hex cfg after> <loaded 0|1> <num>tok,...|-> <hex getters before> <hex getters after>
  *        getters: the attributes the statement names (l_Pinned, mirror of Spec.lean's `pinnedState`) read one by one through
- *        GetField(id) - independent of the attribute mask Serialize applies - nested objects (CheckResult) field by field
+ *        GetField(id) - independent of the attribute mask Serialize applies - nested objects (CheckResult, PerfdataValue) field by
+ *        field, each tagged with the member "@object": true (a dictionary with the same members carries no tag)
  *        loaded: modified-attributes.conf compiled at start-up; the last field is the oracle for the config writer's number
  *        text (C17): for every number in the modifications whose JSON token changes through ConfigWriter::EmitValue +
  *        ConfigCompiler, `before>after` (`!` = the text does not compile)
@@ -19,12 +20,18 @@
  *        cfg = Serialize(obj, FAConfig) + original_attributes + version
  *        kind: h Host, s Service, n Notification, d Downtime, c Comment, u User; st.x = {attribute: value} is set through SetField
  *        spec keys: kind, name, vars, notes, st (state), mods [[attr, value]..] (runtime modifications), restore [attr..]
- *        (restored again after a first complete dump: the dump that counts is the second one), deep n (executions nested n deep)
+ *        (restored again after a first complete dump: the dump that counts is the second one), deep n (executions nested n deep);
+ *        inside st.executions and st.cr.{command,perf,vars_after} a dictionary {"@pdv": [label, value, counter, unit, warn, crit,
+ *        min, max]} stands for a PerfdataValue OBJECT at that place (Objectify)
  *   B <batch> <objects> <bytes of the state file>                information only
  *   W <kind> <cseed> | <n> <call:t|T>...                        the intercepted calls of one complete write
- *        (t = on the temp file, T = names the target path)
+ *        (t = on the temp file, T = names the target path / a descriptor opened on the target path)
+ *        kinds: state (DumpObjects), modattr (DumpModifiedAttributes), write (AtomicFile::Write) replacing a previous version;
+ *        statenew, modattrnew, writenew: the same onto a path that does not exist yet; createobj: the config file of a
+ *        runtime-created Host written by ConfigObjectUtility::CreateObject into the _api package of a scratch data directory
  *   K <kind> <cseed> <k> <b|p> | <call> <found>                 kill inside the k-th intercepted call (b = before it
- *        takes effect, p = after half of a write's bytes); k = n: no kill.  found = old|new|absent|other
+ *        takes effect, p = after half of a write's bytes); k = n: no kill.  found = old|new|absent|other (never `old` for the
+ *        kinds without a previous version)
  *        (bytes on disk AND what the real loader makes of them)
  *   L <kind> <cseed> | <tmp files before> <after>               stale temp files before/after the next complete dump
  *
@@ -43,6 +50,10 @@
 #include "config/expression.hpp"
 #include "base/configwriter.hpp"
 #include "base/scriptframe.hpp"
+#include "base/perfdatavalue.hpp"
+#include "base/workqueue.hpp"
+#include "icinga/checkcommand.hpp"
+#include "remote/configobjectutility.hpp"
 #include <dlfcn.h>
 #include <fcntl.h>
 #include <signal.h>
@@ -64,6 +75,7 @@ static volatile bool g_Track = false;
 static char g_Target[512];
 static size_t g_TargetLen = 0;
 static int g_Fd = -1;
+static bool g_FdIsTarget = false; /* the tracked descriptor was opened on the target path itself (not on a temp file) */
 static int g_KillAt = -1;       /* index of the relevant call inside which the process dies */
 static bool g_KillPartial = false;
 static int g_Calls = 0;
@@ -100,7 +112,7 @@ ssize_t write(int fd, const void *buf, size_t count)
 {
 	static auto real = Real<ssize_t (*)(int, const void *, size_t)>("write");
 	if (g_Track && fd == g_Fd && fd >= 0) {
-		if (Relevant("write", false)) {
+		if (Relevant("write", g_FdIsTarget)) {
 			if (g_KillPartial && count > 1)
 				real(fd, buf, count / 2);
 			_exit(77);
@@ -112,7 +124,7 @@ ssize_t write(int fd, const void *buf, size_t count)
 int fsync(int fd)
 {
 	static auto real = Real<int (*)(int)>("fsync");
-	if (g_Track && fd == g_Fd && fd >= 0 && Relevant("fsync", false))
+	if (g_Track && fd == g_Fd && fd >= 0 && Relevant("fsync", g_FdIsTarget))
 		_exit(77);
 	return real(fd);
 }
@@ -120,7 +132,7 @@ int fsync(int fd)
 int fdatasync(int fd)
 {
 	static auto real = Real<int (*)(int)>("fdatasync");
-	if (g_Track && fd == g_Fd && fd >= 0 && Relevant("fdatasync", false))
+	if (g_Track && fd == g_Fd && fd >= 0 && Relevant("fdatasync", g_FdIsTarget))
 		_exit(77);
 	return real(fd);
 }
@@ -129,10 +141,11 @@ int close(int fd)
 {
 	static auto real = Real<int (*)(int)>("close");
 	if (g_Track && fd == g_Fd && fd >= 0) {
-		if (Relevant("close", false))
+		if (Relevant("close", g_FdIsTarget))
 			_exit(77);
 		int rc = real(fd);
 		g_Fd = -1;
+		g_FdIsTarget = false;
 		return rc;
 	}
 	return real(fd);
@@ -189,7 +202,7 @@ int chmod(const char *p, mode_t mode)
 int fchmod(int fd, mode_t mode)
 {
 	static auto real = Real<int (*)(int, mode_t)>("fchmod");
-	if (g_Track && fd == g_Fd && fd >= 0 && Relevant("chmod", false))
+	if (g_Track && fd == g_Fd && fd >= 0 && Relevant("chmod", g_FdIsTarget))
 		_exit(77);
 	return real(fd, mode);
 }
@@ -202,6 +215,7 @@ int mkostemp(char *tmpl, int flags)
 			_exit(77);
 		int fd = real(tmpl, flags);
 		g_Fd = fd;
+		g_FdIsTarget = false;
 		return fd;
 	}
 	return real(tmpl, flags);
@@ -215,6 +229,7 @@ int mkstemps(char *tmpl, int suffixlen)
 			_exit(77);
 		int fd = real(tmpl, suffixlen);
 		g_Fd = fd;
+		g_FdIsTarget = false;
 		return fd;
 	}
 	return real(tmpl, suffixlen);
@@ -228,6 +243,7 @@ int mkostemps(char *tmpl, int suffixlen, int flags)
 			_exit(77);
 		int fd = real(tmpl, suffixlen, flags);
 		g_Fd = fd;
+		g_FdIsTarget = false;
 		return fd;
 	}
 	return real(tmpl, suffixlen, flags);
@@ -241,6 +257,7 @@ int mkstemp(char *tmpl)
 			_exit(77);
 		int fd = real(tmpl);
 		g_Fd = fd;
+		g_FdIsTarget = false;
 		return fd;
 	}
 	return real(tmpl);
@@ -256,8 +273,17 @@ int open(const char *p, int flags, ...)
 		mode = va_arg(ap, mode_t);
 		va_end(ap);
 	}
-	if (g_Track && (flags & (O_WRONLY | O_RDWR | O_TRUNC | O_CREAT)) && (IsTargetPath(p) || IsTmpPath(p)) && Relevant("openat", IsTargetPath(p)))
-		_exit(77);
+	if (g_Track && (flags & (O_WRONLY | O_RDWR | O_TRUNC | O_CREAT)) && (IsTargetPath(p) || IsTmpPath(p))) {
+		if (Relevant("openat", IsTargetPath(p)))
+			_exit(77);
+		int fd = real(p, flags, mode);
+		if (fd >= 0 && g_Fd < 0) {
+			/* written in place from now on: its writes/fsync/close are calls of this write */
+			g_Fd = fd;
+			g_FdIsTarget = IsTargetPath(p);
+		}
+		return fd;
+	}
 	return real(p, flags, mode);
 }
 
@@ -271,8 +297,17 @@ int open64(const char *p, int flags, ...)
 		mode = va_arg(ap, mode_t);
 		va_end(ap);
 	}
-	if (g_Track && (flags & (O_WRONLY | O_RDWR | O_TRUNC | O_CREAT)) && (IsTargetPath(p) || IsTmpPath(p)) && Relevant("openat", IsTargetPath(p)))
-		_exit(77);
+	if (g_Track && (flags & (O_WRONLY | O_RDWR | O_TRUNC | O_CREAT)) && (IsTargetPath(p) || IsTmpPath(p))) {
+		if (Relevant("openat", IsTargetPath(p)))
+			_exit(77);
+		int fd = real(p, flags, mode);
+		if (fd >= 0 && g_Fd < 0) {
+			/* written in place from now on: its writes/fsync/close are calls of this write */
+			g_Fd = fd;
+			g_FdIsTarget = IsTargetPath(p);
+		}
+		return fd;
+	}
 	return real(p, flags, mode);
 }
 
@@ -286,8 +321,17 @@ int openat(int dfd, const char *p, int flags, ...)
 		mode = va_arg(ap, mode_t);
 		va_end(ap);
 	}
-	if (g_Track && (flags & (O_WRONLY | O_RDWR | O_TRUNC | O_CREAT)) && (IsTargetPath(p) || IsTmpPath(p)) && Relevant("openat", IsTargetPath(p)))
-		_exit(77);
+	if (g_Track && (flags & (O_WRONLY | O_RDWR | O_TRUNC | O_CREAT)) && (IsTargetPath(p) || IsTmpPath(p))) {
+		if (Relevant("openat", IsTargetPath(p)))
+			_exit(77);
+		int fd = real(dfd, p, flags, mode);
+		if (fd >= 0 && g_Fd < 0) {
+			/* written in place from now on: its writes/fsync/close are calls of this write */
+			g_Fd = fd;
+			g_FdIsTarget = IsTargetPath(p);
+		}
+		return fd;
+	}
 	return real(dfd, p, flags, mode);
 }
 
@@ -298,6 +342,7 @@ static void TrackBegin(const std::string& target, int killAt, bool partial)
 	snprintf(g_Target, sizeof(g_Target), "%s", target.c_str());
 	g_TargetLen = strlen(g_Target);
 	g_Fd = -1;
+	g_FdIsTarget = false;
 	g_KillAt = killAt;
 	g_KillPartial = partial;
 	g_Calls = 0;
@@ -588,6 +633,51 @@ static void GenMCases(Rng& rng, int cases, bool odd)
 		if (rng.coin())
 			fields->Set("check_interval", (double)rng.range(1, 600));
 		StartMCase(c, fields);
+		if (rng.below(12) == 0 && c.host->GetVars()) {
+			/* directed: a modification BELOW, then one of the whole attribute ABOVE it (`vars`),
+			 * the upper one is restored - its value still contains the lower modification - and then the lower one */
+			std::vector<std::string> leaves;   /* existing non-dictionary values at depth 1 and 2 (what modify/restore handles exactly) */
+			{
+				Dictionary::Ptr vars = c.host->GetVars();
+				ObjectLock olock(vars);
+				for (const auto& kv : vars) {
+					if (kv.first.IsEmpty() || kv.first.Contains("."))
+						continue;
+					if (!kv.second.IsObjectType<Dictionary>()) {
+						leaves.push_back("vars." + kv.first.GetData());
+						continue;
+					}
+					Dictionary::Ptr sub = kv.second;
+					ObjectLock slock(sub);
+					for (const auto& kv2 : sub)
+						if (!kv2.first.IsEmpty() && !kv2.first.Contains(".") && !kv2.second.IsObjectType<Dictionary>())
+							leaves.push_back("vars." + kv.first.GetData() + "." + kv2.first.GetData());
+				}
+			}
+			if (!leaves.empty()) {
+				GenOpts plain;
+				int nLow = rng.range(1, 2);
+				std::vector<std::string> low;
+				for (int j = 0; j < nLow; j++) {
+					std::string p = leaves[rng.below(leaves.size())];
+					if (std::find(low.begin(), low.end(), p) == low.end()) {
+						low.push_back(p);
+						DoModify(c, p, GenValue(rng, 0, plain));
+					}
+				}
+				if (rng.below(3) == 0)
+					DoModify(c, "notes", String(l_Strings[1 + rng.below(10)]));
+				DoModify(c, "vars", GenDict(rng, 2, plain, 1));
+				if (rng.below(4) == 0)
+					DoModify(c, "vars", GenDict(rng, 1, plain, 0));
+				DoRestore(c, "vars");
+				if (rng.below(4) == 0)
+					DoRestore(c, "vars");
+				for (const auto& p : low)
+					DoRestore(c, p);
+				continue;
+			}
+		}
 		int len = (int)rng.below(10);
 		int n = len < 5 ? rng.range(2, 3) : (len < 8 ? rng.range(4, 5) : rng.range(6, 8));
 		std::vector<std::string> touched;
@@ -681,6 +771,9 @@ static Value GetterTree(const Value& v)
 			r->Set(f.Name, GetterTree(o->GetField(i)));
 		}
 		r->Set("type", t->GetName());
+		/* an OBJECT of that type, not a dictionary that merely has these members: Serialize() shows both alike, every
+		 * consumer of the value (FormatPerfdata, the perfdata writers, macros) tells them apart */
+		r->Set("@object", true);
 		return r;
 	}
 	return v;
@@ -779,6 +872,8 @@ static ConfigObject::Ptr BuildConfig(const Dictionary::Ptr& spec)
 	return c;
 }
 
+static Value Objectify(const Value& v);
+
 /* st.x: {attribute name: value}, set through the reflection setter of the object's type (no attribute mask involved) */
 static void ApplyExtra(const ConfigObject::Ptr& c, const Dictionary::Ptr& st)
 {
@@ -795,9 +890,53 @@ static void ApplyExtra(const ConfigObject::Ptr& c, const Dictionary::Ptr& st)
 		if (fid < 0)
 			continue;
 		try {
-			c->SetField(fid, kv.second.Clone());
+			c->SetField(fid, Objectify(kv.second));
 		} catch (const std::exception&) { }
 	}
+}
+
+/* The spec is JSON; a typed object nested in a state value is written as {"@pdv": [label, value, counter, unit, warn, crit,
+ * min, max]} ({"@cr": {output, exit, state, command, perf}} for a CheckResult) and becomes a real PerfdataValue here - inside arrays, dictionaries and any nesting of them (what the built-in
+ * icinga/cluster/cluster-zone/ido checks and check results received over the cluster put into performance_data). */
+static Value Objectify(const Value& v)
+{
+	if (v.IsObjectType<Dictionary>()) {
+		Dictionary::Ptr d = v;
+		Value pv;
+		if (d->Get("@pdv", &pv) && pv.IsObjectType<Array>()) {
+			Array::Ptr a = pv;
+			if (a->GetLength() >= 8)
+				return new PerfdataValue(a->Get(0), a->Get(1), a->Get(2), a->Get(3), a->Get(4), a->Get(5), a->Get(6), a->Get(7));
+		}
+		if (d->Get("@cr", &pv) && pv.IsObjectType<Dictionary>()) {
+			/* a CheckResult object (what Notification::stashed_notifications keeps under "cr", inside a dictionary inside an array) */
+			Dictionary::Ptr c = pv;
+			CheckResult::Ptr cr = new CheckResult();
+			cr->SetOutput(c->Get("output"));
+			cr->SetExitStatus(c->Get("exit"));
+			cr->SetState((ServiceState)(int)c->Get("state"));
+			cr->SetCommand(Objectify(c->Get("command")));
+			Value perf = Objectify(c->Get("perf"));
+			if (perf.IsObjectType<Array>())
+				cr->SetPerformanceData(perf);
+			cr->SetExecutionStart(l_Now - 9);
+			cr->SetExecutionEnd(l_Now - 8);
+			return cr;
+		}
+		Dictionary::Ptr r = new Dictionary();
+		ObjectLock olock(d);
+		for (const auto& kv : d)
+			r->Set(kv.first, Objectify(kv.second));
+		return r;
+	}
+	if (v.IsObjectType<Array>()) {
+		Array::Ptr a = v, r = new Array();
+		ObjectLock olock(a);
+		for (const Value& x : a)
+			r->Add(Objectify(x));
+		return r;
+	}
+	return v;
 }
 
 static void ApplyState(const ConfigObject::Ptr& obj, const Dictionary::Ptr& st)
@@ -822,7 +961,7 @@ static void ApplyState(const ConfigObject::Ptr& obj, const Dictionary::Ptr& st)
 	c->SetLastHardStateRaw((ServiceState)(int)st->Get("last_hard_state_raw"));
 	Value ex = st->Get("executions");
 	if (ex.IsObjectType<Dictionary>())
-		{ Dictionary::Ptr d = ex.Clone(); c->SetExecutions(d); }
+		{ Dictionary::Ptr d = Objectify(ex); c->SetExecutions(d); }
 	if (st->Contains("deep")) {
 		/* dictionaries: Serialize's cycle check compares arrays by value, which makes deep arrays cubic */
 		Value v = new Dictionary();
@@ -834,14 +973,14 @@ static void ApplyState(const ConfigObject::Ptr& obj, const Dictionary::Ptr& st)
 	if (crv.IsObjectType<Dictionary>()) {
 		Dictionary::Ptr crd = crv;
 		CheckResult::Ptr cr = new CheckResult();
-		cr->SetCommand(crd->Get("command").Clone());
+		cr->SetCommand(Objectify(crd->Get("command")));
 		Value perf = crd->Get("perf");
 		if (perf.IsObjectType<Array>())
-			{ Array::Ptr a = perf.Clone(); cr->SetPerformanceData(a); }
+			{ Array::Ptr a = Objectify(perf); cr->SetPerformanceData(a); }
 		cr->SetOutput(crd->Get("output"));
 		Value va = crd->Get("vars_after");
 		if (va.IsObjectType<Dictionary>())
-			{ Dictionary::Ptr d = va.Clone(); cr->SetVarsAfter(d); }
+			{ Dictionary::Ptr d = Objectify(va); cr->SetVarsAfter(d); }
 		cr->SetExitStatus(crd->Get("exit"));
 		cr->SetState((ServiceState)(int)crd->Get("state"));
 		cr->SetExecutionStart(crd->Get("start"));
@@ -914,6 +1053,17 @@ static Array::Ptr GenNames(Rng& rng)
 	return a;
 }
 
+static const char *l_PerfLabels[] = { "load1", "rta", "pl", "time", "api_num_conn_endpoints", "a b", "\xc3\xa4=x" };
+static const char *l_PerfUnits[] = { "", "s", "%", "B", "c", "ms" };
+
+/* a PerfdataValue object, in the spec's notation (see Objectify) */
+static Value GenPdv(Rng& rng)
+{
+	auto thr = [&rng]() -> Value { return rng.below(3) == 0 ? Value(Empty) : Value((double)rng.range(-5, 2000) / 4.0); };
+	return new Dictionary({ { "@pdv", new Array({ Value(l_PerfLabels[rng.below(7)]), Value((double)rng.range(-40, 4000) / 8.0), Value(rng.below(4) == 0),
+		Value(l_PerfUnits[rng.below(6)]), thr(), thr(), thr(), thr() }) } });
+}
+
 static double GenTs(Rng& rng) { return rng.below(5) == 0 ? 0.0 : l_Now - rng.range(-5000, 100000) + (rng.coin() ? 0.5 : 0.0); }
 
 static Dictionary::Ptr GenSpec(Rng& rng, int idx)
@@ -942,7 +1092,11 @@ static Dictionary::Ptr GenSpec(Rng& rng, int idx)
 		x->Set("no_more_notifications", rng.coin());
 		Array::Ptr stash = new Array();
 		for (int i = 0, n = rng.range(0, 2); i < n; i++)
-			stash->Add(new Dictionary({ { "notification_type", (double)(1 << rng.below(9)) }, { "cr", GenValue(rng, 2, stOpts) }, { "force", rng.coin() },
+			stash->Add(new Dictionary({ { "notification_type", (double)(1 << rng.below(9)) },
+				{ "cr", rng.coin() ? GenValue(rng, 2, stOpts) : Value(new Dictionary({ { "@cr", new Dictionary({ { "output", String(l_Strings[rng.below(12)]) },
+					{ "exit", (double)rng.range(0, 3) }, { "state", (double)rng.range(0, 3) }, { "command", GenValue(rng, 1, stOpts) },
+					{ "perf", new Array({ Value("a=1"), GenPdv(rng) }) } }) } })) },
+				{ "force", rng.coin() },
 				{ "reminder", rng.coin() }, { "author", String(l_Strings[rng.below(12)]) }, { "text", String(l_Strings[rng.below(12)]) } }));
 		x->Set("stashed_notifications", stash);
 		x->Set("last_notification", GenTs(rng));
@@ -1001,15 +1155,20 @@ static Dictionary::Ptr GenSpec(Rng& rng, int idx)
 	st->Set("force_next_check", rng.coin());
 	st->Set("suppressed_notifications", (double)rng.range(0, 63));
 	st->Set("last_hard_state_raw", (double)rng.range(0, 3));
-	if (rng.below(3) != 0)
-		st->Set("executions", GenDict(rng, 3, stOpts, 1));
+	if (rng.below(3) != 0) {
+		Dictionary::Ptr ex = GenDict(rng, 3, stOpts, 1);
+		if (rng.below(8) == 0)         /* typed objects below dictionaries and arrays of any state attribute */
+			ex->Set("pd", rng.coin() ? GenPdv(rng) : Value(new Array({ Value("x"), new Dictionary({ { "in", new Array({ GenPdv(rng) }) } }) })));
+		st->Set("executions", ex);
+	}
 	if (rng.below(4) != 0) {
 		Dictionary::Ptr cr = new Dictionary();
 		cr->Set("command", GenValue(rng, 3, stOpts));
 		Array::Ptr perf = new Array();
 		int n = rng.range(0, 3);
+		bool objs = rng.below(3) == 0;   /* PerfdataValue objects (internal checks, cluster) instead of / beside plugin strings */
 		for (int i = 0; i < n; i++)
-			perf->Add(GenValue(rng, 2, stOpts));
+			perf->Add(objs && rng.below(4) != 0 ? GenPdv(rng) : GenValue(rng, 2, stOpts));
 		cr->Set("perf", perf);
 		cr->Set("output", String(l_Strings[rng.below(12)]) + (rng.coin() ? " | $x$" : ""));
 		cr->Set("vars_after", GenDict(rng, 2, stOpts));
@@ -1060,6 +1219,39 @@ static Dictionary::Ptr GenSpec(Rng& rng, int idx)
 				if (times == 1 && rng.coin())
 					restores->Add(path);
 			}
+			spec->Set("restore", restores);
+		}
+	}
+	if (hasVars && !spec->Contains("mods") && rng.below(8) == 0) {
+		/* a nested leaf is modified, then the enclosing attribute as a whole, and the whole attribute is restored again before
+		 * the shutdown: the value it returns to still contains the nested modification, which therefore is still a runtime
+		 * modification (written to modified-attributes.conf, restorable) */
+		Dictionary::Ptr vars = spec->Get("vars");
+		std::vector<String> leaves;
+		for (const String& key : vars->GetKeys())
+			if (!key.IsEmpty() && !key.Contains(".") && !vars->Get(key).IsObjectType<Dictionary>())
+				leaves.push_back(key);
+		if (!leaves.empty()) {
+			GenOpts mo;
+			mo.writerKeys = rng.coin();
+			Array::Ptr mods = new Array(), restores = new Array();
+			String key = leaves[rng.below(leaves.size())];
+			Value nested = new Array({ Value("vars." + key), rng.coin() ? Value((double)rng.range(1, 99)) : GenValue(rng, 1, mo) });
+			Dictionary::Ptr whole = GenDict(rng, 2, GenOpts(), 1);
+			/* F-C14j: in the other order (whole attribute first, then a key of the NEW value) the nested entry recorded in
+			 * between survives the restore of the whole attribute as a stale original */
+			bool nestedFirst = rng.below(5) != 0;
+			if (nestedFirst)
+				mods->Add(nested);
+			mods->Add(new Array({ Value("vars"), Value(whole) }));
+			if (!nestedFirst) {
+				whole->Set(key, "w");
+				mods->Add(nested);
+			}
+			if (IsCheckableKind(kind) && rng.coin())
+				mods->Add(new Array({ "notes", String(l_Strings[1 + rng.below(10)]) }));
+			restores->Add("vars");
+			spec->Set("mods", mods);
 			spec->Set("restore", restores);
 		}
 	}
@@ -1325,6 +1517,8 @@ static int RestoreMain(const std::string& dir)
 
 static std::vector<Host::Ptr> l_KHosts;
 static std::string l_KDir;
+static std::string l_KObjPath;   /* config file of the runtime-created object of kind `createobj` */
+static const char *l_KObjName = "kcobj";
 
 static void KSetup()
 {
@@ -1339,18 +1533,46 @@ static void KSetup()
 		h->Register();
 		l_KHosts.push_back(h);
 	}
+	/* kind `createobj`: the config file of a runtime-created object, written by its real caller
+	 * ConfigObjectUtility::CreateObject (configobjectutility.cpp:181-321, the path of PUT /v1/objects) into the _api package
+	 * of a scratch data directory; the package and its active stage exist before the first tracked write */
+	Configuration::DataDir = l_KDir + "/data";
+	Utility::MkDirP(Configuration::DataDir, 0700);
+	try {
+		ConfigObjectUtility::CreateStorage();
+		{
+			Array::Ptr errors = new Array();
+			String cfg = ConfigObjectUtility::CreateObjectConfig(CheckCommand::TypeInstance, "kc-cmd", false, nullptr,
+				new Dictionary({ { "command", new Array({ "/bin/true" }) } }));
+			if (!ConfigObjectUtility::CreateObject(CheckCommand::TypeInstance, "kc-cmd", cfg, errors, nullptr))
+				fprintf(stderr, "createobj setup: %s\n", JsonEncode(errors).CStr());
+		}
+		l_KObjPath = ConfigObjectUtility::ComputeNewObjectConfigPath(Host::TypeInstance, l_KObjName).GetData();
+	} catch (const std::exception& ex) {
+		fprintf(stderr, "createobj setup failed: %s\n", ex.what());
+	}
 }
 
-static std::string KPath(const std::string& kind)
+/* `statenew`, `modattrnew`, `writenew`: the same writes onto a path that does NOT exist yet - the first state file / modified
+ * attributes file of an installation, the config file of a runtime-created object (ConfigObjectUtility::CreateObject ->
+ * AtomicFile::Write).  The complete previous version is "no file": after a kill the path is absent or holds the complete new
+ * version. */
+static bool IsNewKind(const std::string& kind) { return kind == "createobj" || (kind.size() > 3 && kind.compare(kind.size() - 3, 3, "new") == 0); }
+static std::string BaseKind(const std::string& kind) { return (kind != "createobj" && IsNewKind(kind)) ? kind.substr(0, kind.size() - 3) : kind; }
+
+static std::string KPath(const std::string& kindIn)
 {
+	std::string kind = BaseKind(kindIn);
 	if (kind == "state") return l_KDir + "/icinga2.state";
 	if (kind == "modattr") return l_KDir + "/modified-attributes.conf";
+	if (kind == "createobj") return l_KObjPath;
 	return l_KDir + "/object.conf";
 }
 
 /* the content of version `ver` (0 = old, 1 = new) for content seed `cseed` is applied to this process's objects */
-static std::string KApply(const std::string& kind, uint64_t cseed, int ver)
+static std::string KApply(const std::string& kindIn, uint64_t cseed, int ver)
 {
+	std::string kind = BaseKind(kindIn);
 	Rng rng(cseed * 2 + ver + 1);
 	GenOpts o;
 	o.oddKeys = true;
@@ -1372,6 +1594,10 @@ static std::string KApply(const std::string& kind, uint64_t cseed, int ver)
 			h->ModifyAttribute("vars.y", GenValue(rng, 2, mo));
 			h->ModifyAttribute("notes", ver ? "new" : "old");
 		}
+	} else if (kind == "createobj") {
+		Dictionary::Ptr attrs = new Dictionary({ { "check_command", "kc-cmd" }, { "vars", Value(GenDict(rng, 3, o, 1)) },
+			{ "notes", String(std::string(6000 + rng.below(6000), 'n')) }, { "address", String("192.0.2." + std::to_string(rng.below(250))) } });
+		return ConfigObjectUtility::CreateObjectConfig(Host::TypeInstance, l_KObjName, false, nullptr, attrs).GetData();
 	} else {
 		std::string s;
 		size_t n = 9000 + rng.below(6000);
@@ -1382,8 +1608,9 @@ static std::string KApply(const std::string& kind, uint64_t cseed, int ver)
 	return "";
 }
 
-static void KWrite(const std::string& kind, const std::string& content)
+static void KWrite(const std::string& kindIn, const std::string& content)
 {
+	std::string kind = BaseKind(kindIn);
 	std::string path = KPath(kind);
 	if (kind == "state")
 		ConfigObject::DumpObjects(path);
@@ -1391,6 +1618,10 @@ static void KWrite(const std::string& kind, const std::string& content)
 		Configuration::ModAttrPath = path;
 		IcingaApplication::Ptr app = IcingaApplication::GetInstance();
 		((*app).*get(vh::TagDumpModAttrs()))();
+	} else if (kind == "createobj") {
+		Array::Ptr errors = new Array();
+		if (!ConfigObjectUtility::CreateObject(Host::TypeInstance, l_KObjName, content, errors, nullptr))
+			BOOST_THROW_EXCEPTION(std::runtime_error(("CreateObject: " + JsonEncode(errors)).GetData()));
 	} else
 		AtomicFile::Write(path, 0644, content);
 }
@@ -1436,8 +1667,9 @@ static std::string KChildWrite(const std::string& kind, uint64_t cseed, int ver,
 }
 
 /* fork a child (from this pristine process) that loads the file with the real loader and reports what it got */
-static std::string KChildLoad(const std::string& kind, bool *hung)
+static std::string KChildLoad(const std::string& kindIn, bool *hung)
 {
+	std::string kind = BaseKind(kindIn);
 	if (kind == "write")
 		return "";
 	int pfd[2];
@@ -1454,6 +1686,20 @@ static std::string KChildLoad(const std::string& kind, bool *hung)
 				ConfigObject::RestoreObjects(KPath(kind));
 				for (auto& h : l_KHosts)
 					out += J(Serialize(h, FAState)) + "\n";
+			} else if (kind == "createobj") {
+				/* what start-up makes of the file (include_recursive of the _api package's conf.d): compile, evaluate, commit */
+				std::unique_ptr<Expression> expr = ConfigCompiler::CompileFile(KPath(kind), String(), "_api");
+				ActivationScope ascope;
+				ScriptFrame frame(true);
+				expr->Evaluate(frame);
+				expr.reset();
+				WorkQueue upq;
+				std::vector<ConfigItem::Ptr> newItems;
+				if (!ConfigItem::CommitItems(ascope.GetContext(), upq, newItems, true))
+					out = "COMMIT-FAILED";
+				else
+					for (const auto& item : newItems)
+						out += J(Serialize(item->GetObject(), FAConfig)) + "\n";
 			} else {
 				Configuration::ModAttrPath = KPath(kind);
 				ConfigItem::ActivateItems({}, false, false, true);
@@ -1488,8 +1734,9 @@ static std::string KChildLoad(const std::string& kind, bool *hung)
 
 /* The denotation of a file, independent of the order in which the objects were written: the state file as the sorted
  * list of its netstring frames, the modified-attributes script as the sorted list of its per-object blocks. */
-static std::string Canon(const std::string& kind, const std::string& bytes)
+static std::string Canon(const std::string& kindIn, const std::string& bytes)
 {
+	std::string kind = BaseKind(kindIn);
 	std::vector<std::string> parts;
 	if (kind == "state") {
 		size_t i = 0;
@@ -1545,19 +1792,25 @@ static bool KPrepare(const std::string& kind, uint64_t cseed, KRef& ref, int *ha
 	bool ex, hung = false;
 	::unlink(path.c_str());
 	KClean(kind);
-	KChildWrite(kind, cseed, 0, -1, false, &hung);
-	ref.oldBytes = ReadFileBytes(path, &ex);
-	if (!ex)
-		return false;
-	ref.oldLoad = KChildLoad(kind, &hung);
+	if (!IsNewKind(kind)) {
+		KChildWrite(kind, cseed, 0, -1, false, &hung);
+		ref.oldBytes = ReadFileBytes(path, &ex);
+		if (!ex)
+			return false;
+		ref.oldLoad = KChildLoad(kind, &hung);
+	}
 	std::string log = KChildWrite(kind, cseed, 1, -1, false, &hung);
 	ref.newBytes = ReadFileBytes(path, &ex);
-	if (!ex)
+	if (!ex) {
+		fprintf(stderr, "K %s: no file after the complete write (%s): %s\n", kind.c_str(), path.c_str(), log.substr(0, 600).c_str());
 		return false;
+	}
 	ref.newLoad = KChildLoad(kind, &hung);
 	ref.calls = SplitWs(log);
 	if (hung)
 		(*hangs)++;
+	if (IsNewKind(kind))
+		return !ref.newBytes.empty();
 	return Canon(kind, ref.oldBytes) != Canon(kind, ref.newBytes) && (kind == "write" || ref.oldLoad != ref.newLoad);
 }
 
@@ -1566,7 +1819,10 @@ static void KOne(const std::string& kind, uint64_t cseed, const KRef& ref, int k
 	std::string path = KPath(kind);
 	bool hung = false;
 	KClean(kind);
-	WriteFileBytes(path, ref.oldBytes);
+	if (IsNewKind(kind))
+		::unlink(path.c_str());         /* no previous version */
+	else
+		WriteFileBytes(path, ref.oldBytes);
 	int n = (int)ref.calls.size();
 	KChildWrite(kind, cseed, 1, k >= n ? -1 : k, partial, &hung);
 	bool ex;
@@ -1577,7 +1833,7 @@ static void KOne(const std::string& kind, uint64_t cseed, const KRef& ref, int k
 	else {
 		std::string load = KChildLoad(kind, &hung);
 		std::string canon = Canon(kind, bytes);
-		if (canon == Canon(kind, ref.oldBytes) && load == ref.oldLoad)
+		if (!IsNewKind(kind) && canon == Canon(kind, ref.oldBytes) && load == ref.oldLoad)
 			found = "old";
 		else if (canon == Canon(kind, ref.newBytes) && load == ref.newLoad)
 			found = "new";
@@ -1612,7 +1868,7 @@ static int GenK(Rng& rng, int rounds)
 {
 	KSetup();
 	int hangs = 0;
-	const char *kinds[] = { "state", "modattr", "write" };
+	const char *kinds[] = { "state", "modattr", "write", "writenew", "statenew", "modattrnew", "createobj" };
 	for (int r = 0; r < rounds; r++) {
 		for (const char *kind : kinds) {
 			uint64_t cseed = rng.below(1000000);
